@@ -439,7 +439,15 @@ struct Engine
             tzset();
         }
         // the run starts at the given local time of day on (local) 2026-01-01
-        sim::clock_set(epoch_for(P.start_ms_of_day) - (int64_t)P.tz_min * 60 * sim::SEC, 1000 * sim::SEC);
+        // The steady clock starts where the wall clock's start puts it, so that "wall minus steady" is the same
+        // constant in every history a worker process runs (a library that relates the two clocks once per
+        // process must not see a difference between the first history of a process and a later one: replays
+        // run in fresh processes). Only an explicit step of the wall clock (advance with wj) changes the relation.
+        {
+            const int64_t wall0 = epoch_for(P.start_ms_of_day) - (int64_t)P.tz_min * 60 * sim::SEC;
+            const int64_t base = (1767225600ll - 30 * 86400ll) * sim::SEC; // 2025-12-02T00:00:00Z
+            sim::clock_set(wall0, 1000 * sim::SEC + (wall0 - base));
+        }
         sim::clock_tick_always(true);
         sim_start = sim::mono_now();
         if (P.pre_bytes > 0) {
@@ -1208,6 +1216,14 @@ struct Engine
                 sink.reset();
                 iosink = nullptr;
                 after_op("close", true);
+                if (op.rmobst && P.obstacle > 0) {
+                    // somebody cleared the obstacle away while the program was not running
+                    std::string n = stem + ".2026-01-01." + std::to_string(P.obstacle) + (suffix.empty() ? "" : "." + suffix);
+                    if (P.obstacle_gz)
+                        n += ".gz";
+                    if (rmdir((logdir_path + "/" + n).c_str()) == 0)
+                        res.probes["obstacle_removed_before_restart"]++;
+                }
                 make_sink();
                 after_op("open", true);
             } else if (op.k == "checkpoint") {
